@@ -70,11 +70,12 @@ class Region:
 
 
 class Ptr:
-    __slots__ = ('region', 'off')
+    __slots__ = ('region', 'off', 'dims')
 
-    def __init__(self, region, off=0):
+    def __init__(self, region, off=0, dims=None):
         self.region = region
         self.off = off
+        self.dims = dims  # pointee is itself an array with these dimensions (pointer to row)
 
     def is_null(self):
         return self.region is None
@@ -101,6 +102,26 @@ def _same(a, b):
 
 
 NULL = Ptr(None, 0)
+
+
+class ArrayView:
+    """a (sub-)array of a flat region: value of an lvalue of array type"""
+    __slots__ = ('region', 'off', 'dims')
+
+    def __init__(self, region, off, dims):
+        self.region = region
+        self.off = off
+        self.dims = dims
+
+    def __repr__(self):
+        return 'ArrayView(%s+%s,%s)' % (self.region.name, self.off, self.dims)
+
+
+def _prod(xs):
+    r = 1
+    for x in xs:
+        r *= x
+    return r
 
 
 class Obj:
@@ -701,8 +722,14 @@ class Interp:
             i = self.eval(node['c'][1])
             if isinstance(b, Region):
                 b = Ptr(b, 0)
+            if isinstance(b, ArrayView):
+                b = Ptr(b.region, b.off, b.dims[1:] if len(b.dims) > 1 else None)
             if not isinstance(b, Ptr):
                 raise Unsupported('subscript of %r at %s' % (b, self.loc(node)))
+            if b.dims:
+                if not isinstance(i, int):
+                    raise Unsupported('symbolic row index at %s' % self.loc(node))
+                return Cell(ArrayView(b.region, b.off + i * _prod(b.dims), b.dims), None, 0, 'row')
             return self.deref(self.ptr_add(b, i), node)
         if k == 'UnaryOperator':
             op = node['op']
@@ -925,6 +952,8 @@ class Interp:
             r = cell.value
             if isinstance(r, Region):
                 return Ptr(r, 0)
+            if isinstance(r, ArrayView):
+                return Ptr(r.region, r.off, r.dims[1:] if len(r.dims) > 1 else None)
             raise Unsupported('array decay of %r at %s' % (r, self.loc(n)))
         if ck == 'IntegralCast':
             v = self.eval(c)
@@ -1436,10 +1465,10 @@ class Interp:
     def make_array(self, name, dims):
         if len(dims) == 1:
             return Region(name, dims[0], None, 'stack')
-        sub = dims[1:]
-        r = Region(name, dims[0], None, 'stack')
-        r.make = lambda i, s=sub, nm=name: self.make_array('%s[%d]' % (nm, i), s)
-        return r
+        for x in dims:
+            if not isinstance(x, int):
+                raise Unsupported('multi-dimensional array with symbolic extent')
+        return ArrayView(Region(name, _prod(dims), None, 'stack'), 0, list(dims))
 
     def exec_if(self, n):
         if n.get('init'):
